@@ -1,8 +1,11 @@
 #!/bin/sh
 # runs the repository's pinned suite and checks that every stable_pass test of /root/.vp/BASELINE.json still passes
+# (the suite leaves temporary directories behind: it gets its own TMPDIR, removed afterwards)
 REPO="${1:-/repo}"
-OUT="$(mktemp /tmp/baseline.XXXXXX.xml)"
-cd "$REPO" && /venv/bin/python -m pytest -q -p no:cacheprovider --timeout=900 --continue-on-collection-errors --junitxml="$OUT" >/dev/null 2>&1
+SCRATCH="$(mktemp -d /tmp/baseline.XXXXXX)"
+OUT="$SCRATCH/junit.xml"
+mkdir -p "$SCRATCH/tmp"
+cd "$REPO" && TMPDIR="$SCRATCH/tmp" /venv/bin/python -m pytest -q -p no:cacheprovider --timeout=900 --continue-on-collection-errors --junitxml="$OUT" >/dev/null 2>&1
 python3 - "$OUT" <<'PY'
 import json, sys, xml.etree.ElementTree as ET
 sp = set(json.load(open('/root/.vp/BASELINE.json'))['stable_pass'])
@@ -16,5 +19,5 @@ for n in bad[:40]:
 sys.exit(1 if bad else 0)
 PY
 rc=$?
-rm -f "$OUT"
+rm -rf "$SCRATCH"
 exit $rc
